@@ -102,6 +102,20 @@ def check_case(case):
                 return r
         if r.fails or not judged:
             continue
+        # ONE operator object applied to every state in turn (each state short-lived)
+        reused = guard(lambda: pg.op("a", args, pg.lib_state(judged[0][0])[1]))
+        if not isinstance(reused, Raised):
+            for st, s_succ, p_succ in judged:
+                got = observe(guard(lambda: reused.apply(pg.lib_state(st)[0])))
+                r.count("transitions")
+                r.count("operator-reuse")
+                if not (isinstance(got, RefState) and same_state(got, s_succ)):
+                    fresh = observe(guard(lambda: pg.op("a", args, pg.lib_state(st)[1]).apply(pg.lib_state(st)[0])))
+                    if isinstance(fresh, RefState) and same_state(fresh, s_succ) and \
+                            judge(got, s_succ, None, args, st, "one operator re-used over successive states"):
+                        break
+            if r.fails:
+                continue
         # for quantified effects, every declaration order of the problem's objects
         if "forall" in case.get("tags", []):
             from itertools import permutations
